@@ -138,6 +138,15 @@ Theorem abandon_on_timeout_cancel_history : forall es r wt rest dt r',
     snd (step (final (es ++ [Advance dt])) (Cancel r')) = [].
 Proof. exact (timeout_cancel_history cap T30 cap_pos T30_pos). Qed.
 
+(* ... and the response that is read in that same turn after the timer fired (any read [ms]) is consumed
+   by nobody: the step changes nothing and outputs nothing - no resolution, no event, no write *)
+Theorem abandon_on_timeout_data_same_turn : forall es r wt rest dt ms,
+    inflight (final es) = (r, wt) :: rest -> (wt + T30 <= clock (final es) + dt)%N ->
+    let s' := fst (step (final es) (Advance dt)) in
+    step s' (Data ms) = (s', []) /\ opened s' = false /\
+    In (ODone r TimedOut (wt + T30)) (snd (step (final es) (Advance dt))).
+Proof. intros es r wt rest dt ms. exact (timeout_then_data cap T30 (final es) r wt rest dt ms (final_Inv cap T30 cap_pos T30_pos es)). Qed.
+
 (* on an abandoned connection a cancellation (of a caller that has necessarily completed) is a no-op *)
 Theorem cancel_after_abandon_is_noop : forall es r, opened (final es) = false ->
     step (final es) (Cancel r) = (final es, []).
@@ -353,6 +362,7 @@ Print Assumptions abandon_on_cancel.
 Print Assumptions abandon_on_timeout.
 Print Assumptions abandon_on_timeout_cancel_same_turn.
 Print Assumptions abandon_on_timeout_cancel_history.
+Print Assumptions abandon_on_timeout_data_same_turn.
 Print Assumptions cancel_after_abandon_is_noop.
 Print Assumptions abandon_on_peer_close.
 Print Assumptions abandon_on_local_close.
